@@ -263,6 +263,54 @@ Print Assumptions lift_binop_hom_partial.
 Print Assumptions lift_narop_hom_refuted.
 Print Assumptions reflected_forms.
 
+(* --- operator patterns EMBEDDED in enclosing patterns (Punop/Pnarop.__embed__, Pattern.__embed__) --- *)
+(* the __embed__ path of Punop / Pbinop / Pnarop yields what the __stream__ path yields *)
+Theorem embed_eq_stream :
+  forall (g1 : Lift.op1) (g2 : Lift.op2) (g3 : Lift.op3) (a b : Lift.obj) (args : list Lift.obj),
+  Lift.xpull Lift.MEmbed (Lift.OUnPat g1 a) = Lift.xpull Lift.MStream (Lift.OUnPat g1 a)
+  /\ Lift.xpull Lift.MEmbed (Lift.OBinPat g2 a b) = Lift.xpull Lift.MStream (Lift.OBinPat g2 a b)
+  /\ Lift.xpull Lift.MEmbed (Lift.ONarPat g3 a args) = Lift.xpull Lift.MStream (Lift.ONarPat g3 a args).
+Proof. exact C15_lift.embed_eq_stream. Qed.
+
+(* Pseq([p.op(args...)]) streamed or embedded again: element i = op applied to the i-th values of
+   stream(p), stream(arg_1), ...: EVERY operand stream (pattern, Routine, pattern stream, or the
+   constant stream of a number / Function) is advanced once per element *)
+Theorem embedded_narop :
+  forall (g : Lift.op3) (a : Lift.obj) (args : list Lift.obj) (m : Lift.pmode), m <> Lift.MPull ->
+  Lift.xpull m (Lift.OPseq (cons (Lift.ONarPat g a args) nil) 1)
+  = Lift.szip (Lift.sel_apply3 g) (Lift.xpull Lift.MStream a) (Lift.sseq (List.map (Lift.xpull Lift.MStream) args)).
+Proof. exact C15_lift.embedded_narop. Qed.
+Theorem embedded_binop :
+  forall (g : Lift.op2) (a b : Lift.obj) (m : Lift.pmode), m <> Lift.MPull ->
+  Lift.xpull m (Lift.OPseq (cons (Lift.OBinPat g a b) nil) 1)
+  = Lift.szip (Lift.sel_apply2 g) (Lift.xpull Lift.MStream a) (Lift.xpull Lift.MStream b).
+Proof. exact C15_lift.embedded_binop. Qed.
+Theorem embedded_unop :
+  forall (g : Lift.op1) (a : Lift.obj) (m : Lift.pmode), m <> Lift.MPull ->
+  Lift.xpull m (Lift.OPseq (cons (Lift.OUnPat g a) nil) 1) = Lift.smap (Lift.sel_apply1 g) (Lift.xpull Lift.MStream a).
+Proof. exact C15_lift.embedded_unop. Qed.
+
+(* closed form: p.op(lo, hi) inside a Pseq, p a pattern, lo a Routine yielding varying values, hi a pattern *)
+Theorem embedded_narop_numbers :
+  forall (g : Lift.op3) (la lo hi : list num),
+  Lift.xpull Lift.MStream (Lift.OPseq (cons (Lift.ONarPat g (Lift.OPat la) (cons (Lift.OStr lo) (cons (Lift.OPat hi) nil))) nil) 1)
+  = Lift.SFin (List.map (fun t : num * (num * num) => Lift.ONum (snd g (fst t) (cons (fst (snd t)) (cons (snd (snd t)) nil))))
+                        (ListAlg.zip la (ListAlg.zip lo hi))).
+Proof. exact C15_lift.embedded_narop_numbers. Qed.
+
+(* stream(o) pulled = the stream denotation of o, for every object *)
+Theorem stream_of_object :
+  forall o : Lift.obj, Lift.xpull Lift.MPull (Lift.to_stream o) = Lift.xpull Lift.MStream o.
+Proof. exact C15_lift.xpull_to_stream. Qed.
+
+(* Pseq([Pseq([1,5,4,7,8,1]).clip(routine [0,6,3,9,9,0], Pseq([9,5,4,7,8,1]))]): the coordinator's example *)
+Example embedded_narop_example :
+  Lift.xpull Lift.MStream
+    (Lift.OPseq (cons (Lift.ONarPat (Lift.SDec, C15_lift.clip_demo) (Lift.OPat (I 1 :: I 5 :: I 4 :: nil)%list)
+                   (Lift.OStr (I 0 :: I 6 :: I 3 :: nil)%list :: Lift.OPat (I 9 :: I 9 :: I 3 :: nil)%list :: nil)%list) nil) 1)
+  = Lift.SFin (Lift.ONum (I 1) :: Lift.ONum (I 6) :: Lift.ONum (I 3) :: nil)%list.
+Proof. vm_compute. reflexivity. Qed.
+
 (* non-vacuity: the hypotheses are met by concrete arguments and the kernels compute *)
 Example wrap_example : canon (py_wrap (F (7 # 2)) (F (1 # 2)) (F (5 # 2))) = (1, 3, 2)%Z.
 Proof. vm_compute. reflexivity. Qed.
